@@ -206,6 +206,50 @@ class Fn:
                 work.append(s)
         return seen
 
+    def _ps_correlated_defs(self):
+        """blocks whose call defines a bool that is tested by MORE than one switch (directly, through whole-local copies or `!`): the
+        shape a spliced `fn f(&mut self) -> bool { let x = self.g(); if x { .. } x }` followed by `if self.f() { return }` leaves behind.
+        Only these results are tracked symbolically by reachable_ps (every other call result stays unknown, as before)."""
+        if hasattr(self, '_ps_corr'):
+            return self._ps_corr
+        defs = {}      # local -> list of ('call', bb) | ('copy', local) | ('other',)
+        for b in self.blocks:
+            for st in b['st']:
+                if st['k'] == 'assign' and not st['d']['p']:
+                    rv = st['rv']
+                    if rv['k'] == 'use' and 'l' in rv['a'] and not rv['a'].get('p'):
+                        defs.setdefault(st['d']['l'], []).append(('copy', rv['a']['l']))
+                    elif rv['k'] == 'unop' and rv.get('op') == 'Not' and 'l' in rv['a'] and not rv['a'].get('p'):
+                        defs.setdefault(st['d']['l'], []).append(('copy', rv['a']['l']))
+                    else:
+                        defs.setdefault(st['d']['l'], []).append(('other',))
+            t = b['t']
+            if t['k'] == 'call' and not t['d']['p']:
+                defs.setdefault(t['d']['l'], []).append(('call', b['i']))
+
+        def sources(l, seen):
+            if l in seen:
+                return set()
+            seen.add(l)
+            out = set()
+            for d in defs.get(l, [('other',)]):
+                if d[0] == 'call':
+                    out.add(d[1])
+                elif d[0] == 'copy':
+                    out |= sources(d[1], seen)
+                else:
+                    out.add(None)
+            return out
+        count = {}
+        for b in self.blocks:
+            t = b['t']
+            if t['k'] == 'switch' and 'l' in t['a'] and not t['a'].get('p') and self.locals[t['a']['l']] == 'bool':
+                for src in sources(t['a']['l'], set()):
+                    if src is not None:
+                        count[src] = count.get(src, 0) + 1
+        self._ps_corr = set(b for b, n in count.items() if n > 1)
+        return self._ps_corr
+
     def reachable_ps(self, starts, removed_blocks=(), removed_edges=(), call_values=None):
         """like reachable(), but path-sensitive in what is known about locals along the path: bool / integer locals assigned
         constants (the shape `matches!`/`&&`/`||` compile to), and enum-typed locals assigned an aggregate of a known variant
@@ -217,6 +261,7 @@ class Fn:
         seen = set()
         out = set()
         work = [(s, frozenset()) for s in starts if s not in removed_blocks]
+        corr = self._ps_correlated_defs()
         while work:
             b, known = work.pop()
             if (b, known) in seen or len(seen) > 40000:
@@ -259,8 +304,15 @@ class Fn:
                         and k[rv['a']['l']][0] == 'T' and re.match(r'^\.\d+$', rv['a']['p'][0]) and int(rv['a']['p'][0][1:]) + 1 < len(k[rv['a']['l']]) \
                         and k[rv['a']['l']][int(rv['a']['p'][0][1:]) + 1] is not None:
                     k[l] = k[rv['a']['l']][int(rv['a']['p'][0][1:]) + 1]
-                elif rv['k'] == 'discr' and not rv['a'].get('p') and isinstance(k.get(rv['a'].get('l')), tuple):
+                elif rv['k'] == 'discr' and not rv['a'].get('p') and isinstance(k.get(rv['a'].get('l')), tuple) and k[rv['a']['l']][0] != 'S':
                     k[l] = k[rv['a']['l']][2]
+                elif rv['k'] == 'unop' and rv.get('op') == 'Not' and 'l' in rv['a'] and not rv['a'].get('p') and k.get(rv['a']['l']) in (0, 1, True, False) \
+                        and not isinstance(k.get(rv['a']['l']), tuple) and self.locals[rv['a']['l']] == 'bool':
+                    k[l] = 0 if k[rv['a']['l']] else 1
+                elif rv['k'] == 'unop' and rv.get('op') == 'Not' and 'l' in rv['a'] and not rv['a'].get('p') and isinstance(k.get(rv['a']['l']), tuple) \
+                        and k[rv['a']['l']][0] == 'S':
+                    v_ = k[rv['a']['l']]
+                    k[l] = ('S', v_[1], 1 - v_[2])
                 else:
                     k.pop(l, None)
             t = self.blocks[b]['t']
@@ -287,6 +339,12 @@ class Fn:
                         pred = _VARIANT_PREDICATES.get((norm(v_[1]), last_seg(norm(t.get('callee') or ''))))
                         if pred is not None and norm(t.get('callee') or '').startswith(norm(v_[1]) + '::'):
                             val = (v_[2] == pred)
+                if val is None and b in corr:
+                    # a bool tested more than once: a symbol whose value is fixed by the first test along the path. Executing the
+                    # defining call again (a loop) makes a new value: what was known about the old one is forgotten
+                    for l_ in [l_ for l_, v_ in k.items() if (isinstance(v_, tuple) and v_[0] == 'S' and v_[1] == b) or l_ == ('fact', b)]:
+                        del k[l_]
+                    val = ('S', b, 0)
                 if val is not None:
                     k[t['d']['l']] = val
                 else:
@@ -302,6 +360,22 @@ class Fn:
                 if tgt is None:
                     tgt = t['otherwise']
                 succs = [tgt]
+            if t['k'] == 'switch' and t['a'].get('l') in k and not t['a'].get('p') and isinstance(k[t['a']['l']], tuple) and k[t['a']['l']][0] == 'S':
+                _, sid, neg = k[t['a']['l']]
+                f0 = next((bb2 for val, bb2 in t['arms'] if val == 0), None)     # the arm taken when the tested value is false
+                f1 = t['otherwise'] if f0 is not None else None
+                if f0 is not None and f1 is not None and len(t['arms']) == 1:
+                    fact = k.get(('fact', sid))
+                    for tested, s2 in ((0, f0), (1, f1)):
+                        symval = tested ^ neg          # value of the symbol itself on this edge
+                        if fact is not None and fact != symval:
+                            continue
+                        if s2 in removed_blocks or (b, s2) in removed_edges:
+                            continue
+                        k2 = dict(k)
+                        k2[('fact', sid)] = symval
+                        work.append((s2, frozenset(k2.items())))
+                    continue
             nk = frozenset(k.items())
             for s2 in succs:
                 if s2 in removed_blocks or (b, s2) in removed_edges:
